@@ -239,7 +239,7 @@ def search_c03(results, tier, seed, broken):
     hits, n, nontriv = [], 0, set()
     dist = Counter()
     for comp, streams, r in results:
-        if comp == "integrity":
+        if comp == "integrity-light":
             # adaptive compensation between the two published blinding scalars of an ACCEPTED proof: the altered proof has the
             # same points, t_x and x, y, z (all derived before t_x_blinding is absorbed) but another t_x_blinding, so relation (b)
             # t_x.B + t~.B~ = ... cannot hold for it (B~ <> 0, C09_component_injective): if verify accepts it, the combined
@@ -958,7 +958,7 @@ PROPS = {
     "C03": {
         "prop_files": ["Properties/C03.v"], "run_files": ["Run/R1cs.v"],
         "level": "proof",
-        "components": lambda tier: [("r1cs", ["honest", "violate", "mutate", "mutfields", "mutsmall", "forced", "forge", "statement"], {}), ("integrity", ["integrity"], {})],
+        "components": lambda tier: [("r1cs", ["honest", "violate", "mutate", "mutfields", "mutsmall", "forced", "forge", "statement"], {}), ("integrity-light", ["integrity"], {})],
         "search": search_c03,
         "assumptions": ["field and module laws (hypotheses)", "challenges = oracle on the transcript history; the challenges the run inverts are non-zero (all_nz hypothesis)"],
     },
